@@ -87,8 +87,10 @@ Definition fetch_16_bytes_from_buf (b : bytes) : (Z * Z) * bytes :=
   let '(k2, b) := get_i64_le b in
   ((k1, k2), b).
 
-(* `x as i8 as i64` of a byte *)
-Definition sext8 (b : N) : Z := if (b <? 128)%N then Z.of_N b else Z.of_N b - 256.
+(* `x as i8 as i64` of a byte x : u8 (a u8 is below 256; taking the residue makes the
+   function total on N) *)
+Definition sext8 (b : N) : Z :=
+  let u := (b mod 256)%N in if (u <? 128)%N then Z.of_N u else Z.of_N u - 256.
 
 (* Token::new: i64::MIN is normalised to i64::MAX *)
 Definition token_new (v : Z) : Z := if v =? - two63 then two63 - 1 else v.
@@ -263,9 +265,8 @@ Definition j_c2 : Z := jlong 0x4cf5ad432745937f.
 
 (* (long) key.get(i) & 0xff : the unsigned value of byte i *)
 Definition j_ubyte (key : bytes) (i : nat) : Z := Z.of_N (nth i key 0%N).
-(* (long) key.get(i) : the signed value of byte i *)
-Definition j_sbyte (key : bytes) (i : nat) : Z :=
-  let b := nth i key 0%N in if (b <? 128)%N then Z.of_N b else Z.of_N b - 256.
+(* (long) key.get(i) : byte i as a signed 8-bit value, in [-128, 127] *)
+Definition j_sbyte (key : bytes) (i : nat) : Z := (Z.of_N (nth i key 0%N) + 128) mod 256 - 128.
 
 (* getBlock(key, offset, index): the sum of the eight masked bytes shifted into place; long
    addition wraps, which for a sum is the wrap of the exact sum *)
